@@ -335,10 +335,21 @@ func opKinds(ops []Op) string {
 
 func runHistory(c *CheckCtx, i int, r *Rng, cfg HistConfig) error {
 	sc, w := DrawHistory(r, cfg)
-	if _, err := c.RunScenario(sc, i); err != nil {
+	out, err := c.RunScenario(sc, i)
+	if err != nil {
 		return err
 	}
-	c.Env.Stats.Fingerprint(fmt.Sprintf("%d pkgs/%s", len(w.m.Pkgs), opKinds(sc.Variants[0].Ops)))
+	work := false
+	for _, st := range out.Records["history"] {
+		if len(st.Executed) > 0 {
+			work = true
+		}
+	}
+	if work {
+		c.Env.Stats.Fingerprint(fmt.Sprintf("%d pkgs/%s", len(w.m.Pkgs), opKinds(sc.Variants[0].Ops)))
+	} else {
+		c.Env.Stats.Add("trivial-simulations", 1)
+	}
 	c.Env.Stats.Sample(map[string]any{"sim": i, "module": w.m.ModPath, "packages": len(w.m.Pkgs), "generators": w.names, "base": w.base, "ops": opKinds(sc.Variants[0].Ops)}, 3)
 	for _, p := range w.m.Pkgs {
 		l, t := p.HasShadow()
